@@ -160,7 +160,7 @@ def install_crash(crash: Optional[Dict[str, Any]], side: str):
     Also records screen lines and whether the crash fired in the side file."""
     import seqm.MolecularDynamics as MD
 
-    state = {"step": 0}
+    state = {"step": 0, "seen": False}
 
     def log(line: str):
         fd = os.open(side, os.O_WRONLY | os.O_APPEND | os.O_CREAT)
@@ -178,7 +178,9 @@ def install_crash(crash: Optional[Dict[str, Any]], side: str):
             return False
         s = state["step"]
         if action_idx < 0:  # integrator entry for step s
-            return (s == crash["step"] and crash["upto"] == 0) or (s == crash["step"] + 1)
+            if s == crash["step"]:
+                state["seen"] = True
+            return (s == crash["step"] and crash["upto"] == 0) or (s == crash["step"] + 1 and state["seen"])
         return s == crash["step"] and action_idx >= crash["upto"]
 
     def wrap_method(cls, name, idx):
@@ -286,6 +288,11 @@ def read_h5(path: str) -> Dict[str, Any]:
     out: Dict[str, Any] = {}
     if not os.path.exists(path):
         return {k: {"labels": [], "values": None} for k in H5_STREAMS}
+    try:
+        h5py.File(path, "r").close()
+    except OSError as e:
+        # e.g. SIGKILL before the first flush leaves a file HDF5 cannot open
+        return {k: {"labels": ["unreadable"], "values": None, "error": str(e)[:200]} for k in H5_STREAMS}
     with h5py.File(path, "r") as h:
         for g in H5_STREAMS:
             if g in h and "steps" in h[g]:
@@ -403,3 +410,42 @@ def in_process_run(sc: Dict[str, Any], tag="run") -> Dict[str, Any]:
         MD.esdriver = old
         MD.Molecular_Dynamics_Basic._output_to_screen = orig_screen
         shutil.rmtree(d, ignore_errors=True)
+
+
+# --------------------------------------------------------------------------- parallel map (fork)
+def _pm_worker(fn, item, q, idx):
+    try:
+        q.put((idx, fn(item)))
+    except BaseException as e:  # noqa
+        import traceback
+
+        q.put((idx, RuntimeError(traceback.format_exc()[-1500:])))
+
+
+def pmap(fn, items, nproc: int = 0, timeout: float = 900.0):
+    """fork-based parallel map; results in order; an item that raises yields the exception object"""
+    import concurrent.futures as cf
+
+    nproc = nproc or int(os.environ.get("VF_NPROC", "12"))
+    if len(items) == 0:
+        return []
+    ctx = mp.get_context("fork")
+    out = [None] * len(items)
+    with cf.ProcessPoolExecutor(max_workers=min(nproc, len(items)), mp_context=ctx) as ex:
+        futs = {ex.submit(_pm_call, fn, it): i for i, it in enumerate(items)}
+        for f in cf.as_completed(futs, timeout=timeout):
+            i = futs[f]
+            try:
+                out[i] = f.result()
+            except BaseException as e:  # noqa
+                out[i] = RuntimeError(repr(e))
+    return out
+
+
+def _pm_call(fn, it):
+    try:
+        return fn(it)
+    except BaseException:  # noqa
+        import traceback
+
+        return RuntimeError(traceback.format_exc()[-1500:])
